@@ -26,4 +26,16 @@ pub open spec fn type_accepts(t: ObjType, u: ObjType) -> bool {
     t == u || t is Any || (t is Number && (u is Int || u is Rational || u is Float || u is Complex))
       || (t is Func && u is Type)
 }
+// ---- struct construction (call_type): the arguments, then the defaults of the fields that were not given ----
+pub open spec fn struct_fill_ok(fields: VSeq<(String, Option<Obj>)>, n: int) -> bool {
+    forall|i: int| n <= i < fields.len() ==> (#[trigger] fields[i]).1 is Some
+}
+// stubs of what call_type calls outside the struct arm (not verified here)
+#[verifier::external_body]
+pub fn call_type1(ty: &ObjType, arg: Obj) -> (r: NRes<Obj>) { unimplemented!() }
+#[verifier::external_body]
+pub fn expect_one(args: Vec<Obj>, msg: &str) -> (r: NRes<Obj>) { unimplemented!() }
+impl ObjType { #[verifier::external_body] pub fn name(&self) -> (r: String) { unimplemented!() } }
+impl Clone for Struct { #[verifier::external_body] fn clone(&self) -> (r: Struct) ensures r == *self { unimplemented!() } }
+pub assume_specification<T, A: std::alloc::Allocator>[ Vec::<T, A>::reserve_exact ](v: &mut Vec<T, A>, additional: usize) ensures final(v)@ == old(v)@;
 } // verus!
